@@ -615,7 +615,7 @@ func runC07(c *core.Ctx) core.Meta {
 	}
 
 	// ---------------- R07.3 addressing agrees ----------------
-	st3 := c.Rule("R07.3", "emulation and timing address vector registers with the same strides: lane stride 256*4 bytes, register stride 4 bytes; the width rule (ByteSize*regCount when regCount >= 2) is the same in every accessor", 4)
+	st3 := c.Rule("R07.3", "emulation addresses vector registers at lane*1024 + index*4 in every accessor, timing at index*4 + lane*stride + wavefront offset with a stride of at least the bytes one lane owns (file size / 64), so that the cells of different lanes and of co-resident wavefronts are disjoint; the width rule (ByteSize*regCount when regCount >= 2) is the same in every accessor", 4)
 	// emu: offsets of the form laneID*256*4 + RegIndex()*4
 	emuLane := map[string]bool{}
 	for _, fnName := range []string{"Wavefront.ReadReg", "Wavefront.WriteReg", "Wavefront.readRegOperand", "Wavefront.VRegValue"} {
@@ -670,12 +670,29 @@ func runC07(c *core.Ctx) core.Meta {
 			return
 		}
 		st3.Instances++
+		// cells (lane, register) are disjoint iff the lane stride is at least 4 bytes
+		// times the registers a lane owns, i.e. (file size / 64 lanes). Accepted:
+		// stride 0 (scalar file, no lanes); stride = X/64*4 for a file of X*4 bytes
+		// (same X); or both constant with stride >= size/64.
 		k, isC := core.ConstInt(call.Call.Args[1])
-		ok2 := isC && (k == 1024 || k == 0)
+		sizeP, strideP := prov.Of(call.Call.Args[0]), prov.Of(call.Call.Args[1])
+		ok2 := isC && k == 0
+		if !ok2 && isC {
+			if sz, isC2 := core.ConstInt(call.Call.Args[0]); isC2 && k >= sz/64 {
+				ok2 = true
+			}
+		}
+		if !ok2 && !isC {
+			// sizeP = "(X*4)", strideP = "((X/64)*4)"
+			if strings.HasPrefix(sizeP, "(") && strings.HasSuffix(sizeP, "*4)") {
+				x := strings.TrimSuffix(strings.TrimPrefix(sizeP, "("), "*4)")
+				ok2 = strideP == "(("+x+"/64)*4)"
+			}
+		}
 		st3.Ob(ok2)
-		st3.Sample("%s: NewSimpleRegisterFile(·, byteSizePerLane=%d)", core.FuncName(fn), k)
+		st3.Sample("%s: NewSimpleRegisterFile(size %s, lane stride %s)", core.FuncName(fn), short(sizeP), short(strideP))
 		if !ok2 {
-			c.ReportAt("R07.3", fn, in.Pos(), "ByteSizePerLane", fmt.Sprintf("a register file is built with lane stride %d; emulation uses 1024 (256 registers * 4 bytes)", k))
+			c.ReportAt("R07.3", fn, in.Pos(), "ByteSizePerLane", fmt.Sprintf("a vector register file of %s bytes is built with lane stride %s, which is not shown to be at least the bytes one lane owns (size / 64): the command processor hands out offsets up to that many bytes, so registers of resident wavefronts on neighbouring lanes share storage", short(sizeP), short(strideP)))
 		}
 	})
 	// width rule
